@@ -13,7 +13,9 @@ if ! git apply --check $D/patch.diff 2>/dev/null; then echo "patch does not appl
 git apply $D/patch.diff
 for P in "$@"; do
   echo "=== $P against seed $SID"
+  cp /verif/evidence/$P.json /tmp/.ev_$P.$$ 2>/dev/null
   (cd /verif && timeout 900 ./check $P --tier quick 2>&1 | tail -6) | tee $D/check_$P.out
+  [ -f /tmp/.ev_$P.$$ ] && mv /tmp/.ev_$P.$$ /verif/evidence/$P.json
 done
 git -C /repo checkout -- .
 git -C /repo status --short | head
